@@ -110,6 +110,15 @@ def gen(rng, quick):
     for n in [0, 1, 2, 7, 16] + ([] if quick else [64]):
         names = [rng.choice(["P", "O", "O2", "O3"]) for _ in range(n)]
         ops.append({"op": "ris.double_and_compress_batch", "in": names})
+    # equality of the wire types is equality of all 32 bytes (seeded change C06d-m2 ignored the last one): a random string
+    # against itself and against the string with one bit flipped in each byte position
+    for kind in ('ristretto',):
+        a = rng.getrandbits(256)
+        ops.append({"op": "enc.eq", "kind": kind, "in": [le(a), le(a)]})
+        ops.append({"op": "enc.eq", "kind": kind, "in": [le(0), le(0)]})
+        for j in range(32):
+            ops.append({"op": "enc.eq", "kind": kind, "in": [le(a), le(a ^ (1 << (8 * j + rng.randrange(8))))]})
+            ops.append({"op": "enc.eq", "kind": kind, "in": [le(0), le(1 << (8 * j + rng.randrange(8)))]})
     return ops
 
 
@@ -123,7 +132,10 @@ def run(ck):
     if not quick:
         ck.mc("MC_ApiRis", "MC_ApiRis_101.cfg", note="same on the order-88 curve", workers=8, timeout=3000)
     backends = ["s64", "s32", "v2"] if quick else ["s64", "s32", "f64", "f32", "v2", "v512"]
-    bins = build_many([(b, True, "release", ()) for b in backends], jobs=3)
+    # one build WITHOUT the precomputed-tables feature: ristretto.rs has cfg(not(feature = "precomputed-tables")) code of its own
+    # (RistrettoPoint::mul_base falls back to a variable-base multiplication - seeded change C06d-m1 was in that branch)
+    notab = ["s64"] if quick else ["s64", "s32", "v2"]
+    bins = build_many([(b, True, "release", ()) for b in backends] + [(b, False, "release", ()) for b in notab], jobs=3)
     ops = gen(ck.rng, quick)
     sp = os.path.join(ck.workdir, "script.ndjson")
     write_script(sp, ops)
@@ -132,6 +144,13 @@ def run(ck):
         cid = cfg_id(b)
         tp = os.path.join(ck.workdir, cid + ".trace.ndjson")
         run_driver(bins[cid], cid, sp, tp)
+        traces.append((cid, tp))
+    spn = os.path.join(ck.workdir, "script.notab.ndjson")
+    write_script(spn, [o for o in ops if not o.get("needs_tables")])      # RistrettoBasepointTable does not exist in that build
+    for b in notab:
+        cid = cfg_id(b, False)
+        tp = os.path.join(ck.workdir, cid + ".trace.ndjson")
+        run_driver(bins[cid], cid, spn, tp)
         traces.append((cid, tp))
     ck.validate(traces)
     # how many of the decode inputs were accepted / rejected (non-vacuity of both outcomes)
